@@ -51,6 +51,8 @@ def cases(tier, rng):
             p["x"] = float(max(p["x"], min(0.4, g["xgrid"][1] * 2.0)))
             p["y"] = float(rng.uniform(0.1, 0.9))
         target = cards.pick(rng, cards.TARGETS) if rng.random() < 0.6 else {"Z": float(rng.uniform(0, 5)), "A": 5.0}
+        if i % 9 == 4:
+            g = dict(g, xgrid=[float(v) for v in (g["xgrid"][::-1] if i % 2 else rng.permutation(g["xgrid"]))])  # nodes listed in another order
         out.append(dict(id=f"c20-{i}", names=names, points=pts, target=target, legacy=LEGACY[i % len(LEGACY)], grid=g,
                         shared_kin=bool(rng.random() < 0.3), **cfg))  # fmt: skip
     return out
@@ -215,8 +217,9 @@ def run_case(case):
         viol.append(dict(sig="echo-theory", what=f"output.theory is not the given theory card; differing keys {[k for k in set(th0)|set(out1.theory) if plain(out1.theory).get(k,'<missing>') != th0.get(k,'<missing>')]}"))
     if plain(out1.observables) != ob0:
         viol.append(dict(sig="echo-observables", what=f"output.observables is not the given card; differing keys {[k for k in set(ob0)|set(out1.observables) if plain(out1.observables).get(k,'<missing>') != ob0.get(k,'<missing>')]}"))
-    if list(out1["xgrid"]["grid"]) != list(g["xgrid"]) or out1["xgrid"]["log"] != g["is_log"] or out1["polynomial_degree"] != g["deg"]:
-        viol.append(dict(sig="echo-grid", what="output grid/log/degree differ from the observables card"))
+    # "the grid actually used": the card's nodes, sorted (that is what the operator columns refer to)
+    if [float(v) for v in out1["xgrid"]["grid"]] != sorted(float(v) for v in g["xgrid"]) or out1["xgrid"]["log"] != g["is_log"] or out1["polynomial_degree"] != g["deg"]:
+        viol.append(dict(sig="echo-grid", what=f"output grid/log/degree are not the (sorted) grid of the observables card: {[round(float(v),6) for v in out1['xgrid']['grid']][:4]}... vs {sorted(g['xgrid'])[:4]}..."))
     if list(out1["pids"]) != [22, -6, -5, -4, -3, -2, -1, 21, 1, 2, 3, 4, 5, 6]:
         viol.append(dict(sig="echo-pids", what=f"output pids {list(out1['pids'])}"))
     if out1["projectilePID"] != PROJ_PID[case["obs"]["ProjectileDIS"]]:
